@@ -89,6 +89,11 @@ class FrameReader:
     def ev(self, n, p):
         """-> list of (path, value)"""
         n0 = n
+        had_try = False
+        x_ = H.strip(n)
+        while H.tag(x_) in ("try", "await"):
+            had_try = had_try or H.tag(x_) == "try"
+            x_ = H.strip(x_[1])
         n = unwrap(n)
         t = H.tag(n)
         if t == "local":
@@ -142,6 +147,10 @@ class FrameReader:
                 return [(p, ("op",))]
             if last in ("Ok", "Some"):
                 return self.ev(args[0], p) if args else [(p, None)]
+            if had_try and path.startswith("crate::") and p.consumed > 0 and p.body_len is None:
+                # `f(..)?` on a crate function that is neither a transport read nor the body decoder: its error leaves the function
+                # here, after the header was taken from the stream and before the body was
+                p.notes.append(("fallible-before-body", path))
             return [(p, None)]
         if t == "mcall":
             mc = H.mcall(n)
